@@ -150,7 +150,12 @@ class fetcher(base.fetcher):
                     os.unlink(path)
                 except OSError:
                     pass
-        raise last_exc
+        # the result of the last attempt hasn't been looked at yet; trust the
+        # chksums rather than the attempt count
+        if not self.attempts:
+            raise last_exc
+        self._verify(path, target)
+        return path
 
     def get_path(self, fetchable):
         path = pjoin(self.distdir, fetchable.filename)
